@@ -4,7 +4,8 @@
    are the definitional mean (sum/n) and sample variance (sum of squared deviations / (n-1)).
    The Student-t CDF is abstract (a function F with the stated hypotheses); the correspondence check
    instantiates it with the implementation's own TDist{DoF}.CDF, whose accuracy is property C05. *)
-From MM Require Import Base.Num Model.TTest Proofs.TTest.
+From Coq Require Import Reals Qreals.
+From MM Require Import Base.Num Model.TTest Proofs.TTest Check.C04 Proofs.C04Sound.
 Local Open Scope Q_scope.
 
 (* The Welford loops of sample.go compute the definitional mean and variance. *)
@@ -142,6 +143,100 @@ Theorem C04_meanci_edges : forall xs c,
 Proof. exact meanci_edges. Qed.
 Print Assumptions C04_meanci_edges.
 
+(* ---------- what an OK verdict of the comparator means (Check/C04.v, Proofs/C04Sound.v) ---------- *)
+(* [ok v] : the verdict's code is V_OK.  [test_sound] (Proofs/C04Sound.v) unfolds to: if the model returns the
+   error e then the Go call returned exactly that error; if it returns the result r then the Go call returned a
+   result with N1 = t_n1 r, N2 = t_n2 r, the requested alternative, finite T, DoF, P with
+     - T within tau = tr |T| + tr of  t_sign r * sqrt (t_sq r)  (stated without a root: [near_signed_root], and
+       for every rational root of t_sq r as |T - sign * root| <= tau),
+     - |DoF - t_dof r| <= tr * t_dof r,   tr = 1e-9 + 2^-46 n kappa(samples),
+     - |P - ttail F alt T| <= 1e-9 for F = the implementation's own TDist{DoF}.CDF values at T and |T|,
+     - P and both CDF values in [-1e-12, 1 + 1e-12]. *)
+Theorem C04_check_test_ok_sound : forall op x1 x2 mu0 alt st n1 n2 T dof altout P cdfT cdfAbs,
+  ok (check_test op x1 x2 mu0 alt st n1 n2 T dof altout P cdfT cdfAbs) ->
+  test_sound op x1 x2 mu0 alt st n1 n2 T dof altout P cdfT cdfAbs.
+Proof. exact check_test_ok_sound. Qed.
+Print Assumptions C04_check_test_ok_sound.
+
+(* the model's results are well formed: T^2 >= 0, sign in {-1,0,1}, sign = 0 only if T^2 = 0 (this is what
+   makes the root-free comparison of T sound) *)
+Theorem C04_model_result_wf : forall op x1 x2 mu0 r, c04_model op x1 x2 mu0 = TOk r -> tres_wf r.
+Proof. exact model_tres_wf. Qed.
+Print Assumptions C04_model_result_wf.
+
+(* the root-free clause IS the statement about the real square root *)
+Theorem C04_near_signed_root_real : forall s q x tau, (0 <= q)%Q ->
+  (near_signed_root s q x tau <-> (Rabs (Q2R x - IZR s * sqrt (Q2R q)) <= Q2R tau)%R).
+Proof. exact near_signed_root_real. Qed.
+Print Assumptions C04_near_signed_root_real.
+
+(* ... composed with the textbook theorems: an OK verdict on a legal input means the observed T and DoF are
+   within the stated tolerance of the TEXTBOOK statistic and degrees of freedom, N1/N2 are the sample sizes *)
+Theorem C04_check_welch_ok_textbook : forall x1 x2 mu0 alt st n1 n2 T dof altout P cdfT cdfAbs,
+  (2 <= length x1)%nat -> (2 <= length x2)%nat -> ~ (var_def x1 == 0 /\ var_def x2 == 0) ->
+  ok (check_test 1 x1 x2 mu0 alt st n1 n2 T dof altout P cdfT cdfAbs) ->
+  st = 0%Z /\ n1 = zlen x1 /\ n2 = zlen x2 /\ altout = alt /\
+  let d := mean_def x1 - mean_def x2 in let a := var_def x1 / lenQ x1 in let b := var_def x2 / lenQ x2 in
+  T_dof_sound (c04_tr 1 x1 x2) (Qsign d) (d * d / (a + b))
+    ((a + b) * (a + b) / (a * a / (lenQ x1 - 1) + b * b / (lenQ x2 - 1))) T dof.
+Proof. exact check_welch_ok_textbook. Qed.
+Print Assumptions C04_check_welch_ok_textbook.
+
+Theorem C04_check_pooled_ok_textbook : forall x1 x2 mu0 alt st n1 n2 T dof altout P cdfT cdfAbs,
+  (2 <= length x1)%nat -> (2 <= length x2)%nat -> ~ (var_def x1 == 0 /\ var_def x2 == 0) ->
+  ok (check_test 0 x1 x2 mu0 alt st n1 n2 T dof altout P cdfT cdfAbs) ->
+  st = 0%Z /\ n1 = zlen x1 /\ n2 = zlen x2 /\ altout = alt /\
+  let d := mean_def x1 - mean_def x2 in
+  let sp2 := ((lenQ x1 - 1) * var_def x1 + (lenQ x2 - 1) * var_def x2) / (lenQ x1 + lenQ x2 - 2) in
+  T_dof_sound (c04_tr 0 x1 x2) (Qsign d) (d * d / (sp2 * (1 / lenQ x1 + 1 / lenQ x2))) (lenQ x1 + lenQ x2 - 2) T dof.
+Proof. exact check_pooled_ok_textbook. Qed.
+Print Assumptions C04_check_pooled_ok_textbook.
+
+Theorem C04_check_paired_ok_textbook : forall x1 x2 mu0 alt st n1 n2 T dof altout P cdfT cdfAbs,
+  length x1 = length x2 -> (2 <= length x1)%nat -> ~ var_def (vdiff x1 x2) == 0 ->
+  ok (check_test 2 x1 x2 mu0 alt st n1 n2 T dof altout P cdfT cdfAbs) ->
+  st = 0%Z /\ n1 = zlen x1 /\ n2 = zlen x2 /\ altout = alt /\
+  let dm := mean_def (vdiff x1 x2) - mu0 in
+  T_dof_sound (c04_tr 2 x1 x2) (Qsign dm) (dm * dm * lenQ x1 / var_def (vdiff x1 x2)) (lenQ x1 - 1) T dof.
+Proof. exact check_paired_ok_textbook. Qed.
+Print Assumptions C04_check_paired_ok_textbook.
+
+Theorem C04_check_one_sample_ok_textbook : forall x x2 mu0 alt st n1 n2 T dof altout P cdfT cdfAbs,
+  (2 <= length x)%nat -> ~ var_def x == 0 ->
+  ok (check_test 3 x x2 mu0 alt st n1 n2 T dof altout P cdfT cdfAbs) ->
+  st = 0%Z /\ n1 = zlen x /\ n2 = 0%Z /\ altout = alt /\
+  let dm := mean_def x - mu0 in
+  T_dof_sound (c04_tr 3 x x2) (Qsign dm) (dm * dm * lenQ x / var_def x) (lenQ x - 1) T dof.
+Proof. exact check_one_sample_ok_textbook. Qed.
+Print Assumptions C04_check_one_sample_ok_textbook.
+
+(* MeanCI: [ci_sound] unfolds to: NaN triple for empty input; otherwise the observed mean within rounding of the
+   Welford mean, zero width for c <= 0 or zero variance, (-inf, +inf) for c >= 1 or n <= 1, and for 0 < c < 1,
+   n >= 2: lo < mean < hi, symmetric within rounding, (hi-mean)^2 n = t^2 s^2 within the stated relative
+   tolerance for the recovered t > 0, and F(-t) within 1e-9 + t (tr + relw) of (1-c)/2 *)
+Theorem C04_check_ci_ok_sound : forall xs c mean lo hi trec fneg,
+  ok (check_ci xs c mean lo hi trec fneg) -> ci_sound xs c mean lo hi trec fneg.
+Proof. exact check_ci_ok_sound. Qed.
+Print Assumptions C04_check_ci_ok_sound.
+
+Theorem C04_check_ci_mean_textbook : forall xs c mean lo hi trec fneg, xs <> [] ->
+  ok (check_ci xs c mean lo hi trec fneg) ->
+  exists mgo, mean = XFin mgo /\ Qabs (mgo - mean_def xs) <= (4 * Qofnat (length xs) + 16) * ulp53 * Qmaxabs xs.
+Proof. exact check_ci_mean_textbook. Qed.
+Print Assumptions C04_check_ci_mean_textbook.
+
+(* content of the interval when F(-t) is only within e of (1-c)/2: within 2e of c *)
+Theorem C04_meanci_content_approx : forall (F : Q -> Q) t c f e,
+  F (- t) == f -> F t == 1 - F (- t) -> Qabs (f - (1 - c) / 2) <= e -> Qabs (F t - F (- t) - c) <= 2 * e.
+Proof. exact ci_content_approx. Qed.
+Print Assumptions C04_meanci_content_approx.
+
+(* the whole comparator: an OK verdict on a line means the line decodes to a case that is sound *)
+Theorem C04_check_ok_sound : forall line, ok (check_C04 line) ->
+  exists cs rest, p_line line = Some (cs, rest) /\ case_sound cs.
+Proof. exact check_C04_ok_sound. Qed.
+Print Assumptions C04_check_ok_sound.
+
 (* ---------- non-vacuity ---------- *)
 (* {1,2,3,4} vs {2,4,6,9}: pooled T^2 = 363/127 with 6 DoF, Welch the same T^2 (equal sizes) with DoF 48387/11849; T < 0 *)
 Example C04_two_sample_example :
@@ -157,3 +252,10 @@ Example C04_errors_example :
   meanci [] (1 # 2) = (None, CIInf) /\ meanci [1; 2; 3] 0 = (Some 2, CIZero) /\
   meanci [1; 2; 3] (19 # 20) = (Some 2, CIStudent 3 1 (1 # 40)) /\ meanci [1; 2; 3] 1 = (Some 2, CIInf).
 Proof. vm_compute. repeat split; reflexivity. Qed.
+(* comparator soundness: ten real Go outputs (harness on /repo) are accepted, a negated T and a wrong DoF are not *)
+Example C04_check_ok_example :
+  ok (check_C04 ex_line_one) /\ ok (check_C04 ex_line_welch) /\ ok (check_C04 ex_line_pooled) /\
+  ok (check_C04 ex_line_paired) /\ ok (check_C04 ex_line_err) /\
+  ok (check_C04 ex_line_ci) /\ ok (check_C04 ex_line_ci0) /\ ok (check_C04 ex_line_ci1) /\
+  ok (check_C04 ex_line_ci_empty) /\ ok (check_C04 ex_line_ci_const).
+Proof. exact check_C04_ok_example. Qed.
